@@ -373,7 +373,7 @@ func genIndependent(g *core.Gen) {
 }
 
 func genPools(g *core.Gen) {
-	for c := 0; c < g.N(130, 1500); c++ {
+	for c := 0; c < g.N(130, 1000); c++ {
 		world := 0
 		if g.R.Chance(1, 4) {
 			world = 1
@@ -529,6 +529,10 @@ func genSigopLimits(g *core.Gen) {
 			if left < 0 {
 				left = 0
 			}
+		}
+		if kc := pg.pick(func(u utxo) bool { return pg.spendable(u) && u.kind == 'T' && !u.cb }); kc >= 0 {
+			c3 := pg.add([]inRef{pg.ref(kc)}, []byte{'T'}, 600)
+			pg.s.txs[c3].fpk = 1001
 		}
 		s := pg.finish(true)
 		g.Case("sigop-limit", true, s.line())
@@ -935,7 +939,7 @@ func genTwo(g *core.Gen) {
 
 // genPar: eight complete cases per line, run concurrently on separate chains.
 func genPar(g *core.Gen) {
-	for c := 0; c < g.N(3, 40); c++ {
+	for c := 0; c < g.N(3, 20); c++ {
 		var parts []string
 		for i := 0; i < 8; i++ {
 			pg := newPoolGen(g.R, i%2)
@@ -1052,6 +1056,14 @@ func genSigopExact(g *core.Gen) {
 		}
 		b := pg.add(ins, kk, 20000)
 		pg.s.txs[b].fpk = 5000
+		// a cheap transaction considered last: it fits whether or not the one before was skipped
+		if kc := pg.pick(func(u utxo) bool { return pg.spendable(u) && u.kind == 'T' && !u.cb }); kc >= 0 && delta <= 0 {
+			c3 := pg.add([]inRef{pg.ref(kc)}, []byte{'T'}, 3000)
+			pg.s.txs[c3].fpk = 1200
+		} else if kc >= 0 {
+			c3 := pg.add([]inRef{pg.ref(kc)}, []byte{'T'}, 3000)
+			pg.s.txs[c3].fpk = 1300
+		}
 		s := pg.finish(false)
 		g.Case("sigop-exact", true, s.line())
 	}
@@ -1081,7 +1093,7 @@ func genMaturityEdge(g *core.Gen) {
 // fills the block to 4 000 000 -4 / +0 / +4 weight units: the final self-check
 // is the only thing between the selection and an oversized block.
 func genConsensusWeight(g *core.Gen) {
-	for c := 0; c < g.N(1, 12); c++ {
+	for c := 0; c < g.N(1, 6); c++ {
 		pg := newPoolGen(g.R, 0)
 		pg.s.maxW = 4100000
 		pg.s.addr = false
@@ -1180,7 +1192,7 @@ func genSeqLocks(g *core.Gen) {
 				r.seq = uint32(g.R.Pick(0, 0xfffffffe, 0xffffffff))
 			}
 			_ = met
-			j := pg.add([]inRef{r}, pg.randKinds(2), g.R.Range(1000, 50000))
+			j := pg.add([]inRef{r}, []byte{'T', []byte{'T', 'K', 'H'}[g.R.Intn(3)]}, g.R.Range(1000, 50000))
 			pg.s.txs[j].ver = int32(g.R.Pick(2, 2, 2, 1))
 			pg.s.txs[j].allMax = r.seq == 0xffffffff
 			if g.R.Chance(1, 3) { // a child with a relative lock on its unconfirmed parent
